@@ -47,8 +47,36 @@ func (g *G) maybeProbe(e *Expr, p int) *Expr {
 	return e
 }
 
+// gogen folds constant expressions (`(2 * -1) >= (6 % 4)` is emitted as `false`): folding is not
+// part of the model, so generated operators always have a non-constant operand.
+func isConst(e *Expr) bool {
+	switch e.K {
+	case "int", "bool", "str":
+		return true
+	case "bin", "not":
+		for _, a := range e.Args {
+			if !isConst(a) {
+				return false
+			}
+		}
+		return true
+	}
+	return false
+}
+
+func (g *G) nc(e *Expr) *Expr {
+	if (e.K == "bin" || e.K == "not") && isConst(e) {
+		e.Args[0] = Probe(g.id(), e.Args[0])
+	}
+	return e
+}
+
 // int expression over the int variables in scope
-func (g *G) intE(depth int) *Expr {
+func (g *G) intE(depth int) *Expr { return g.nc(g.intE0(depth)) }
+
+func (g *G) boolE(depth int) *Expr { return g.nc(g.boolE0(depth)) }
+
+func (g *G) intE0(depth int) *Expr {
 	if depth <= 0 || g.r.Chance(35) {
 		if len(g.ints) > 0 && g.r.Chance(70) {
 			return Var(g.pick(g.ints))
@@ -78,7 +106,7 @@ func (g *G) intE(depth int) *Expr {
 	}
 }
 
-func (g *G) boolE(depth int) *Expr {
+func (g *G) boolE0(depth int) *Expr {
 	if depth <= 0 || g.r.Chance(50) {
 		ops := []string{"lt", "le", "gt", "ge", "eq", "ne"}
 		return Bin(g.pick(ops), g.intE(1), g.intE(1))
